@@ -850,6 +850,13 @@ class Engine(
                         # right, reflecting the fact that the derived engine is
                         # supposed to have final say over how we convert
                         # literals.
+                        members = range(start, stop_exclusive, step)
+                        if not members:
+                            return sqlalchemy.sql.literal(False)
+                        if step < 0:
+                            # Express a descending range as the equivalent
+                            # ascending one.
+                            start, stop_exclusive, step = members[-1], members[0] + 1, -step
                         stop_inclusive = stop_exclusive - 1
                         if start == stop_inclusive:
                             return sql_item == self.convert_column_literal(start)
@@ -859,7 +866,19 @@ class Engine(
                                 self.convert_column_literal(start),
                                 self.convert_column_literal(stop_inclusive),
                             )
-                            if step != 1:
+                            if step != 1 and start < 0:
+                                # SQL's % takes the sign of the dividend, so
+                                # only apply it to values that are nonnegative
+                                # whenever the BETWEEN term is satisfied.
+                                return sqlalchemy.sql.and_(
+                                    *[
+                                        target,
+                                        (sql_item - self.convert_column_literal(start))
+                                        % self.convert_column_literal(step)
+                                        == self.convert_column_literal(0),
+                                    ]
+                                )
+                            elif step != 1:
                                 return sqlalchemy.sql.and_(
                                     *[
                                         target,
